@@ -228,9 +228,15 @@ func runCase(c *Case, w *trace.Writer, seed int64, hammer bool) {
 						cf()
 					}
 					if nd.Ask != nil && g%2 == 0 {
-						actx, cf := context.WithTimeout(ctx, 200*time.Millisecond)
-						nd.Ask(actx, 0, []byte("hammer-ask"), make([]byte, 64))
+						// asks whose context may end while the handler is still running; the response buffer is
+						// the asker's again as soon as Ask has returned
+						resp := make([]byte, 64)
+						actx, cf := context.WithTimeout(ctx, time.Duration(100+rand.Intn(1500))*time.Microsecond)
+						nd.Ask(actx, 0, []byte(fmt.Sprintf("hammer-ask-%d-0123456789abcdef", g)), resp)
 						cf()
+						for i := range resp {
+							resp[i] = 0xAA
+						}
 					}
 					time.Sleep(200 * time.Microsecond)
 				}
@@ -242,7 +248,16 @@ func runCase(c *Case, w *trace.Writer, seed int64, hammer bool) {
 				defer wg.Done()
 				defer func() { recover() }()
 				for ctx.Err() == nil {
-					recvNode.ServeAsk(ctx, func(src, dst string, req, resp []byte) int { return copy(resp, "ok") })
+					recvNode.ServeAsk(ctx, func(src, dst string, req, resp []byte) int {
+						// the handler owns req and resp until it returns
+						in := digest(req)
+						time.Sleep(time.Duration(rand.Intn(1200)) * time.Microsecond)
+						n := copy(resp, "handled:"+in)
+						if out := digest(req); out != in {
+							emit(Event{Ev: "askbuf", Node: 0, Digest: in, DigOut: out, Len: len(req)})
+						}
+						return n
+					})
 				}
 			}()
 		}
